@@ -34,4 +34,8 @@ pub mod c18;
 #[cfg(kani)]
 pub mod c02;
 #[cfg(kani)]
+pub mod c15;
+#[cfg(kani)]
+pub mod c14;
+#[cfg(kani)]
 mod setup;
